@@ -94,7 +94,7 @@ def info(exes):
 N_BOUNDARY = [0, 1, 2, 3, 4, 5, 6, 7, 8, 9, 15, 16, 17, 31, 32, 33, 63, 64, 65, 100, 127, 128, 129, 255, 256, 257, 300]
 
 
-def bulk_case(r, inf, n, kind=None, flags=None, canonical=False):
+def bulk_case(r, inf, n, kind=None, flags=None, canonical=False, cf=None, sk=None):
     A = inf["attr_size"]
     kind = kind or r.choice(["many", "various"])
     W = r.rng(1, 4)
@@ -112,7 +112,15 @@ def bulk_case(r, inf, n, kind=None, flags=None, canonical=False):
     if kind == "many":
         fs = 0
     hr, hi, ht = flags if flags is not None else (r.below(4) != 0, r.below(4) != 0, r.below(3) != 0)
-    return "bulk %d %s %d %d %d %d %d %d %d %d %d" % (W, kind, n, fs, as_, rs, is_, ts, int(hr), int(hi), int(ht))
+    # per-item attributes: child_first pattern (0 all help-first, 1 all child-first, 2/3 alternating,
+    # 4 pseudo-random, 5 library default) and stack size pattern (0 128 KiB, 1 random 16..256 KiB,
+    # 2 library default path, 3 mix)
+    if cf is None:
+        cf = r.choice([0, 0, 1, 2, 3, 4, 4, 5])
+    if sk is None:
+        sk = r.choice([0, 1, 1, 2, 3, 3])
+    return "bulk %d %s %d %d %d %d %d %d %d %d %d %d %d %d" % (W, kind, n, fs, as_, rs, is_, ts, int(hr), int(hi), int(ht),
+                                                           cf, sk, r.below(1 << 20))
 
 
 def gen_bulk(ctx, inf, nrand, nmax):
@@ -120,8 +128,14 @@ def gen_bulk(ctx, inf, nrand, nmax):
     cases = []
     for n in N_BOUNDARY:
         for kind in ("many", "various"):
-            cases.append(bulk_case(r, inf, n, kind, (1, 1, 1), canonical=True))
+            cases.append(bulk_case(r, inf, n, kind, (1, 1, 1), canonical=True, cf=5, sk=0))
+            cases.append(bulk_case(r, inf, n, kind, (1, 1, 1), canonical=True, cf=0, sk=r.choice([0, 1, 2, 3])))
             cases.append(bulk_case(r, inf, n, kind))
+    # every child_first x stack pattern on small and odd sizes, attrs given, random strides
+    for cf in range(6):
+        for sk in range(4):
+            for n in (2, 3, 5, 8, 13):
+                cases.append(bulk_case(r, inf, n, flags=(r.below(4) != 0, r.below(4) != 0, 1), cf=cf, sk=sk))
     for n in (0, 1, 2, 3, 5, 8):
         for kind in ("many", "various"):
             for m in range(8):
@@ -464,7 +478,7 @@ def neighbours(ctx, inf, case):
             for W in (1, 2, 4):
                 for m in range(8):
                     if n + dn >= 0:
-                        res.append(" ".join(["bulk", str(W), w[2], str(n + dn)] + w[4:9] + [str(m & 1), str((m >> 1) & 1), str((m >> 2) & 1)]))
+                        res.append(" ".join(["bulk", str(W), w[2], str(n + dn)] + w[4:9] + [str(m & 1), str((m >> 1) & 1), str((m >> 2) & 1)] + w[12:]))
     elif w[0] == "pf":
         first, last, step, grain = map(int, w[4:8])
         for df in (-1, 0, 1):
@@ -507,6 +521,9 @@ def run(ctx):
             n = int(w[3])
             ndist["bulk n=0" if n == 0 else "bulk n=1" if n == 1 else "bulk n=2..8" if n <= 8 else "bulk n=9..64" if n <= 64 else "bulk n>64"] += 1
             ndist["bulk results=%s ids=%s attrs=%s" % (w[9], w[10], w[11])] += 1
+            if w[11] == "1" and len(w) >= 14:
+                ndist["bulk attrs child_first pattern %s" % ["all 0 (help-first)", "all 1", "alternating", "alternating'", "random", "default"][int(w[12])]] += 1
+                ndist["bulk attrs stack pattern %s" % ["128K", "random 16..256K", "stack size 0", "mix"][int(w[13])]] += 1
         elif w[0] == "tg":
             k = sum(1 for t in w[5:] if t != "w")
             ndist["tg runs<=8" if k <= 8 else "tg runs 9..40" if k <= 40 else "tg runs>40"] += 1
